@@ -19,9 +19,11 @@ Proof. reflexivity. Qed.
 Lemma gen_ptr_synth_ttl : ptr_synth_ttl = 600.
 Proof. reflexivity. Qed.
 
-Lemma gen_wkp_literal : well_known_prefix_txt = [bs "64:ff9b::/96"].
+(* the two IPv6 literals, parsed by Model.parse_cidr6 *)
+Lemma gen_wkp_net : wkp_net = mk_net [0; 100; 255; 155; 0; 0; 0; 0; 0; 0; 0; 0; 0; 0; 0; 0] 96 16.
 Proof. reflexivity. Qed.
-Lemma gen_exclude_aaaa_literal : default_exclude_aaaa_txt = [bs "::ffff:0:0/96"].
+Lemma gen_default_exclude_aaaa :
+  default_exclude_aaaa = [mk_net [0; 0; 0; 0; 0; 0; 0; 0; 0; 0; 255; 255; 0; 0; 0; 0] 96 16].
 Proof. reflexivity. Qed.
 
 (* all sixteen literals of defaultExcludeAv4 parse, to these networks *)
